@@ -14,7 +14,7 @@ FRAGMENT = {
                'NETWORK event occurred in that time; the second-occurrence rule needs 2, an id-number change in between 3); length, rating and the other '
                'items are only checked for fidelity, not for being announced',
  'design_ref': 'DESIGN.md section 6 (C09)',
- 'quick': {'runs': 40000, 'budget_s': 25, 'workers': 16},
+ 'quick': {'runs': 300000, 'budget_s': 25, 'workers': 16},
  'thorough': {'runs': 4000000, 'budget_s': 600, 'workers': 16, 'det_sample': 200},
  'rule': 'one evaluation = one simulated run: 1-4 XDS packet sources, a caption source and an idle source multiplexed pair by pair by the seeded scheduler '
          '(continue codes inserted on resumption), faults attached to packets; 1 run in 4 is a programme guide: 2-10 items of the current, future and channel '
